@@ -8,7 +8,10 @@ import (
 	"fmt"
 	"io"
 	"math/rand"
+	"runtime"
 	"strings"
+	"sync"
+	"sync/atomic"
 
 	"github.com/cloudwego/gopkg/bufiox"
 	"github.com/cloudwego/gopkg/protocol/thrift/apache"
@@ -34,6 +37,7 @@ type ApCase struct {
 	Fn       string `json:"fn,omitempty"`       // registry: read | write | check
 	Reg      bool   `json:"reg,omitempty"`
 	CbErr    bool   `json:"cberr,omitempty"`
+	N        int    `json:"n,omitempty"` // registry / concurrent: rounds
 }
 
 type rwOnly struct{ bytes.Buffer }
@@ -221,7 +225,67 @@ func runApCase(raw json.RawMessage, w *TraceWriter) {
 
 var errCb = errors.New("verif: callback result")
 
+// runRegistryConcurrent: the three hooks are registered by three components of a process at the same time (package
+// initialisers, plug-ins): each registration that has returned is in force afterwards, whatever the others did meanwhile
+func runRegistryConcurrent(c *ApCase, w *TraceWriter) {
+	defer func() {
+		apache.RegisterCheckTStruct(nil)
+		apache.RegisterThriftRead(nil)
+		apache.RegisterThriftWrite(nil)
+	}()
+	v := &struct{ X int }{42}
+	rd := bufiox.NewBytesReader([]byte{1, 2, 3})
+	var sinkBuf []byte
+	wr := bufiox.NewBytesWriter(&sinkBuf)
+	lost, rounds := 0, c.N
+	for r := 0; r < rounds && lost == 0; r++ {
+		apache.RegisterCheckTStruct(nil)
+		apache.RegisterThriftRead(nil)
+		apache.RegisterThriftWrite(nil)
+		var hitC, hitR, hitW int32
+		var start, done sync.WaitGroup
+		start.Add(1)
+		done.Add(3)
+		var gate int32
+		spin := func() {
+			atomic.AddInt32(&gate, 1)
+			for atomic.LoadInt32(&gate) < 3 {
+				runtime.Gosched()
+			}
+		}
+		go func() {
+			defer done.Done()
+			start.Wait()
+			spin()
+			apache.RegisterCheckTStruct(func(x interface{}) error { atomic.AddInt32(&hitC, 1); return nil })
+		}()
+		go func() {
+			defer done.Done()
+			start.Wait()
+			spin()
+			apache.RegisterThriftRead(func(r bufiox.Reader, x interface{}) error { atomic.AddInt32(&hitR, 1); return nil })
+		}()
+		go func() {
+			defer done.Done()
+			start.Wait()
+			spin()
+			apache.RegisterThriftWrite(func(wx bufiox.Writer, x interface{}) error { atomic.AddInt32(&hitW, 1); return nil })
+		}()
+		start.Done()
+		done.Wait()
+		e1, e2, e3 := apache.CheckTStruct(v), apache.ThriftRead(rd, v), apache.ThriftWrite(wr, v)
+		if e1 != nil || e2 != nil || e3 != nil || hitC != 1 || hitR != 1 || hitW != 1 {
+			lost++
+		}
+	}
+	w.Ev("regconc", "rounds", rounds, "lost", lost)
+}
+
 func runRegistry(c *ApCase, w *TraceWriter) {
+	if c.Fn == "concurrent" {
+		runRegistryConcurrent(c, w)
+		return
+	}
 	// registry globals are process-wide: set, use, and always restore to "unregistered"
 	defer func() {
 		apache.RegisterCheckTStruct(nil)
@@ -389,6 +453,9 @@ func genApCases(c *Ctx) []json.RawMessage {
 		for _, reg := range []bool{false, true} {
 			for _, ce := range []bool{false, true} {
 				out = append(out, mustJSON(ApCase{Mode: "registry", Fn: fn, Reg: reg, CbErr: ce}))
+				if fn == "read" && reg && ce { // (once)
+					out = append(out, mustJSON(ApCase{Mode: "registry", Fn: "concurrent", N: 3000}))
+				}
 			}
 		}
 	}
@@ -396,7 +463,7 @@ func genApCases(c *Ctx) []json.RawMessage {
 }
 
 func checkC19(c *Ctx) {
-	c.rule = "MC: all operation sequences <= 5 over both handles keep FIFO order and Remaining = unread length in the single-buffer model. TRACE: every sequence of <= 3 (thorough 4) operations from {Write 0/1/2 bytes, Read 0/1/2, Reset on either handle, Close, RemainingBytes} over empty and pre-filled buffers, through NewBufferTransport and NewDefaultTransport(*bytes.Buffer), plus random longer sequences; after every step both handles (buffer Len/Bytes, transport RemainingBytes) must show the model state; generic transport over objects with/without ReadableLen (every boundary of int: negative values incl. -2, MinInt32, MinInt64; 0; positives up to MaxInt64); registered / unregistered read, write and check callbacks (argument identity, result pass-through, specific error)."
+	c.rule = "MC: all operation sequences <= 5 over both handles keep FIFO order and Remaining = unread length in the single-buffer model. TRACE: every sequence of <= 3 (thorough 4) operations from {Write 0/1/2 bytes, Read 0/1/2, Reset on either handle, Close, RemainingBytes} over empty and pre-filled buffers, through NewBufferTransport and NewDefaultTransport(*bytes.Buffer), plus random longer sequences; after every step both handles (buffer Len/Bytes, transport RemainingBytes) must show the model state; generic transport over objects with/without ReadableLen (every boundary of int: negative values incl. -2, MinInt32, MinInt64; 0; positives up to MaxInt64); registered / unregistered read, write and check callbacks (argument identity, result pass-through, specific error). Registry under concurrent registration: 3000 rounds of three goroutines registering the three hooks at the same instant; afterwards all three dispatchers reach their callbacks."
 	c.MC("MC_ApacheBridge.tla", "MC_ApacheBridge.cfg", 4)
 	c.TraceCheck(famAp, genApCases(c))
 	c.Assume("registry globals are saved/restored by the driver; cases run sequentially")
